@@ -12,6 +12,7 @@
  *         | rg                           carquet_writer_new_row_group
  * Values are bit patterns throughout (floats never interpreted). */
 #include "filecase.h"
+#include <sys/stat.h>
 
 /* expected table per row group / column, derived from the history */
 typedef struct { int nrows; uint8_t* defs; int nvals; uint8_t** vals; int* vlen; int cap; int vcap; } echunk;
@@ -152,6 +153,69 @@ static void run_case(hctx* h, fcase* fc) {
     free(fb); free(fb2);
     unlink(path); unlink(path2);
 }
+
+/* directed determinism cases (C05 "writing the same table with the same options twice produces byte-identical files"):
+ * pages far larger than any internal window / hash-table span of the codecs, written after a DIFFERENT table in the same
+ * process and thread, so that whatever state a codec might keep between calls differs between the two writes.
+ *   wrtwice codec= pat=<0 ramp|1 low-entropy|2 random> n=<INT64 values> page= | len1= len2= p_same_twice= */
+static size_t write_i64_table(const char* path, int codec, int pat, long n, long page, uint64_t salt) {
+    carquet_error_t err; memset(&err, 0, sizeof err);
+    carquet_schema_t* sc = carquet_schema_create(&err);
+    (void)!carquet_schema_add_column(sc, "v", CARQUET_PHYSICAL_INT64, NULL, CARQUET_REPETITION_REQUIRED, 0);
+    carquet_writer_options_t wo; carquet_writer_options_init(&wo);
+    wo.compression = (carquet_compression_t)codec; wo.page_size = page;
+    carquet_writer_t* w = carquet_writer_create(path, sc, &wo, &err);
+    if (!w) { carquet_schema_free(sc); return 0; }
+    int64_t* v = (int64_t*)h_alloc((size_t)(n ? n : 1) * 8);
+    uint64_t x = 0x9E3779B97F4A7C15ull ^ salt;
+    for (long i = 0; i < n; i++) {
+        x = x * 6364136223846793005ull + 1442695040888963407ull;
+        v[i] = pat == 0 ? (int64_t)i + (int64_t)salt : pat == 1 ? (int64_t)((x >> 33) % 1000) : (int64_t)x;
+    }
+    int ok = carquet_writer_write_batch(w, 0, v, n, NULL, NULL) == CARQUET_OK;
+    ok = (carquet_writer_close(w) == CARQUET_OK) && ok;
+    free(v); carquet_schema_free(sc);
+    if (!ok) return 0;
+    struct stat sb; return stat(path, &sb) == 0 ? (size_t)sb.st_size : 0;
+}
+static void run_twice(hctx* h, int codec, int pat, long n, long page, int warm) {
+    char p0[128], p1[128], p2[128];
+    snprintf(p0, sizeof p0, "/tmp/verif_tw_%d_0.parquet", (int)getpid());
+    snprintf(p1, sizeof p1, "/tmp/verif_tw_%d_1.parquet", (int)getpid());
+    snprintf(p2, sizeof p2, "/tmp/verif_tw_%d_2.parquet", (int)getpid());
+    fprintf(h->out, "wrtwice codec=%d pat=%d n=%ld page=%ld warm=%d", codec, pat, n, page, warm);
+    h_call(h);
+    if (warm) (void)write_i64_table(p0, codec, 2, n / 2 + 7, page, 12345);          /* something else first */
+    size_t l1 = write_i64_table(p1, codec, pat, n, page, 0);
+    size_t l2 = write_i64_table(p2, codec, pat, n, page, 0);
+    int same = l1 != 0 && l1 == l2;
+    if (same) {
+        FILE* a = fopen(p1, "rb"); FILE* b = fopen(p2, "rb");
+        uint8_t* ba = h_alloc(l1); uint8_t* bb = h_alloc(l1);
+        same = a && b && fread(ba, 1, l1, a) == l1 && fread(bb, 1, l1, b) == l1 && memcmp(ba, bb, l1) == 0;
+        if (a) fclose(a); if (b) fclose(b); free(ba); free(bb);
+    }
+    fprintf(h->out, " | len1=%zu len2=%zu p_same_twice=%d\n", l1, l2, same);
+    h->n_lines++;
+    unlink(p0); unlink(p1); unlink(p2);
+}
+
+/* component `twice`: a fresh process, so the first case of every codec meets that codec in its virgin state (warm=0: the
+ * same table twice, nothing before); then the same after a different table (warm=1) */
+static void gen_twice(hctx* h) {
+    static const int tw_codecs[] = { 1, 2, 5, 6, 7, 0 };
+    for (int ci = 0; ci < 6; ci++) run_twice(h, tw_codecs[ci], 0, 16000, 0, 0);
+    for (int ci = 0; ci < 6; ci++)
+        for (int pat = 0; pat < 3; pat++) {
+            run_twice(h, tw_codecs[ci], pat, 16000 + (long)h_below(h, 3000), 0, 1);
+            if (h->thorough || pat == 1) run_twice(h, tw_codecs[ci], pat, 40000 + (long)h_below(h, 20000), 65536 + (long)h_below(h, 100000), (int)h_below(h, 2));
+        }
+}
+static int replay_twice(hctx* h, const h_line* l) {
+    if (strcmp(l->op, "wrtwice")) return 0;
+    run_twice(h, (int)h_ll(h_in(l, "codec")), (int)h_ll(h_in(l, "pat")), (long)h_ll(h_in(l, "n")), (long)h_ll(h_in(l, "page")), (int)h_ll(h_in(l, "warm"))); return 1;
+}
+const h_component comp_twice = { "twice", gen_twice, replay_twice };
 
 static void gen_file(hctx* h) {
     long n = h->thorough ? 6000 : 350;
